@@ -10,6 +10,7 @@ PROP = "C06"
 def run(tier, seed):
     t0 = time.time()
     acc = propmc.run(PROP, tier, seed)
+    acc.merge(propmc.run_ground(PROP, tier, seed))
     calls = acc.c["calls"]
     nt = acc.c["nt_ground_violating"] + acc.c["nt_collapsed_to_point"]
     cov = {
@@ -22,7 +23,9 @@ def run(tier, seed):
                 "non-trivial = distinct ground tuple violating the relation, or distinct non-ground box that one call collapsed to a point",
         "exhaustive": True,
         "instances": acc.c["instances"],
-        "bounds": f"tier={tier}: arity<=3-4, 3-5 values per variable, all parameter vectors of the table, all boxes",
+        "bounds": f"tier={tier}: arity<=3-4, 3-5 values per variable, all parameter vectors of the table, all boxes; plus ground tuples "
+                  "only at arity 4-10 (contracts.ground_instances; all permutations of 7-8 vertices for the circuit constraints)",
+        "ground_only_calls": acc.c["ground_only_calls"],
     }
     return finish(PROP, tier, seed, "model_checking", acc, cov,
                   ["relation predicates of mc/contracts.py (written from the documentation)",
